@@ -517,6 +517,41 @@ static void case_B(int nx, int ny, int nz, int ax, int ay, int az, int top, int 
     R->observe(h);
 }
 
+// case "P nx ny nz az top unit L which": the short input form of DX/DY/DZ - only the first L layers are given and the
+// library completes every missing layer from the layer above (EclipseGrid::createDVector).  The model is the B model whose
+// layers L..nz-1 repeat layer L-1; the short form must give the same grid as the closed form and as COORD/ZCORN.
+// which: 0 = DZ short, 1 = DX, DY and DZ short.
+static void case_P(int nx, int ny, int nz, int az, int top, int u, int L, int which, const std::string& cas) {
+    if (L < 1 || L > nz || top > 1 || az < 1 || az > 3) throw std::runtime_error("not a case: " + cas);
+    BModel m = make_b(nx, ny, nz, 1, 2, az, top);
+    for (int k = L; k < nz; ++k) { m.dzv[k] = m.dzv[L - 1]; for (int j = 0; j < ny; ++j) for (int i = 0; i < nx; ++i) m.dz[m.ci(i, j, k)] = m.dz[m.ci(i, j, L - 1)]; }
+    const std::vector<double> exp = expect_b(m);
+    const double f = UNITS[u].f;
+    const double cscale = f * cpg_from_b(m).maxabs();
+    const size_t n = m.n(), nl = size_t(nx) * ny * L;
+    std::vector<double> DX(n), DY(n);
+    for (int k = 0; k < nz; ++k) for (int j = 0; j < ny; ++j) for (int i = 0; i < nx; ++i) { DX[m.ci(i, j, k)] = m.dxv[i]; DY[m.ci(i, j, k)] = m.dyv[j]; }
+    auto head = [&](const std::vector<double>& v) { return std::vector<double>(v.begin(), v.begin() + nl); };
+    const std::string fname = which == 0 ? "DX-DY-DZshort-TOPS" : "DXshort-DYshort-DZshort-TOPS";
+    R->count("form_" + fname);
+    try {
+        std::vector<double> ref;
+        { auto deck = g_parser->parseString(deck_head(nx, ny, nz, u) + cpg_from_b(m).keywords() + "END\n"); EclipseGrid g(deck); ref = observe_geom(g); }
+        const std::string kw = (which == 0 ? arrkw("DX", DX) + arrkw("DY", DY) : arrkw("DX", head(DX)) + arrkw("DY", head(DY))) + arrkw("DZ", head(m.dz)) + arrkw("TOPS", m.tops);
+        auto deck = g_parser->parseString(deck_head(nx, ny, nz, u) + kw + "END\n");
+        EclipseGrid g(deck);
+        if ((int)g.getNX() != nx || (int)g.getNY() != ny || (int)g.getNZ() != nz || g.getNumActive() != m.n()) { R->violation("C13:forms:" + fname + ":shape", "grid dimensions/active count differ from DIMENS in " + cas, rpj(cas)); return; }
+        const std::vector<double> obs = observe_geom(g);
+        std::string msg, q = cmp_geom(obs, exp, f, 1e-12, cscale, nx, ny, msg);
+        if (!q.empty()) R->violation("C13:forms:" + fname + ":" + q, "form " + fname + " with " + S(L) + " of " + S(nz) + " layers given (" + UNITS[u].kw + "): " + msg + " (closed form with the missing layers repeating the last given one) in case " + cas, rpj(cas));
+        q = cmp_geom(obs, ref, 1.0, 1e-12, cscale, nx, ny, msg, true);
+        if (!q.empty()) R->violation("C13:forms:" + fname + "-vs-COORD-ZCORN:" + q, "form " + fname + " with " + S(L) + " of " + S(nz) + " layers given and the equivalent COORD/ZCORN grid differ (" + UNITS[u].kw + "): " + msg + " in case " + cas, rpj(cas));
+        R->observe(vf::fnv(obs.data(), 8 * obs.size(), 1469598103934665603ull ^ (uint64_t)(L * 7 + which)));
+    } catch (const std::exception& e) {
+        R->violation("C13:forms:" + fname + ":throws", "form " + fname + " cannot be built: " + std::string(e.what()).substr(0, 300) + " in case " + cas, rpj(cas));
+    }
+}
+
 // ========================================================== part C: cpg ====
 // Pillars: straight lines from (x',y',ZT) to (cx+(x'-cx)*ax+tx, cy+(y'-cy)*ay+ty, ZB).
 //   pil 0..8  : parallel (ax=ay=1), slopes (sx,sy) in {0,0.4,-0.3}^2       -> any planar layer surface allowed
@@ -826,6 +861,7 @@ static void do_case(const std::string& c) {
     auto need = [&](int m) { if (got < m + 1) throw std::runtime_error("bad case string: " + c); };
     if (k == 'A') { need(5); case_A(a[0], a[1], a[2], a[3], a[4], c); R->count("cases_index"); }
     else if (k == 'B') { need(8); case_B(a[0], a[1], a[2], a[3], a[4], a[5], a[6], a[7], c); R->count("cases_forms"); }
+    else if (k == 'P') { need(8); case_P(a[0], a[1], a[2], a[3], a[4], a[5], a[6], a[7], c); R->count("cases_short_forms"); }
     else if (k == 'C') { need(8); case_C(CSpec{a[0], a[1], a[2], a[3], a[4], a[5], a[6]}, a[7], c); R->count("cases_cpg"); }
     else if (k == 'D') { need(1); case_D(a[0], c); R->count("cases_big_thread_grids"); }
     else if (k == 'E') { need(8); case_E(a[0], a[1], a[2], a[3], a[4], a[5], a[6], a[7], c); R->count("cases_egrid"); }
@@ -843,7 +879,7 @@ int main(int argc, char** argv) {
     const bool th = run.thorough();
     run.rule =
         "A index: all dims {1,2,3}^3 x ACTNUM (all 2^n patterns for n<=8 cells, 16 structured otherwise) x 5 construction paths, and every resetACTNUM transition p->q of those patterns; model = rank among active cells in natural order. "
-        "B forms: dims " + std::string(th ? "{1..4}^3" : "{3x3x3, 2x3x4, 4x1x2, 1x1x1}") + " x per-direction sizes {uniform,increasing,mixed} (+ per-cell DZ) x top {flat, per-column TOPS steps, planar DEPTHZ tilt, DEPTHZ saddle} x 4 unit systems, each in every applicable form of {DX/DY/DZ/TOPS, same with full TOPS, DXV/DYV/DZV/TOPS, DXV/DY/DZV/TOPS, DXV/DYV/DZV/DEPTHZ, COORD/ZCORN}: 1e-12 rel to closed forms and to the COORD/ZCORN form. "
+        "B forms: dims " + std::string(th ? "{1..4}^3" : "{3x3x3, 2x3x4, 4x1x2, 1x1x1}") + " x per-direction sizes {uniform,increasing,mixed} (+ per-cell DZ) x top {flat, per-column TOPS steps, planar DEPTHZ tilt, DEPTHZ saddle} x 4 unit systems, each in every applicable form of {DX/DY/DZ/TOPS, same with full TOPS, DXV/DYV/DZV/TOPS, DXV/DY/DZV/TOPS, DXV/DYV/DZV/DEPTHZ, COORD/ZCORN}: 1e-12 rel to closed forms and to the COORD/ZCORN form. P short forms: the same dims x DZ {increasing, mixed, per-cell} x top {flat, steps} x every number L=1..nz of given layers of DZ (and of DX, DY, DZ), missing layers completed by the library, against the closed form and COORD/ZCORN. "
         "C cpg: dims " + std::string(th ? "{1,2,3}^3 x 3 spacings" : "{2x2x2,3x2x2,1x1x1,2x3x1} x 2 spacings") + " x 25 pillar configurations (9 parallel shears, 16 converging/diverging) x layer surfaces {horizontal, tilt, wedge, alternating (all planar), bilinear saddle (non-planar, separate :nonplanar keys)}; non-parallel pillars only horizontal x 6 fault-throw patterns x 4 unit systems: exact prism/frustum volume, positivity, 2x2x2 trilinear-subdivision additivity (1e-10 rel). "
         "D threads: every grid of B and C (incl. refined) plus 12 12x12x6 grids, OMP_NUM_THREADS in {1,2,4,16} in re-exec'ed children vs in-process, bitwise. "
         "E egrid: 4 geometries x dims x 5 ACTNUM x deck units(4) x save units(4) x {formatted,unformatted} x NNC {none, literal list, NNC keyword} x MAPAXES {none, plain, FEET, rotated METRES} x {first,second save}; distinct = distinct observation vectors / file bytes";
@@ -877,6 +913,9 @@ int main(int argc, char** argv) {
             if (!b_valid(az, top)) continue;
             for (int u = 0; u < 4 && alive; ++u) alive = go("B" + J({d[0], d[1], d[2], ax, ay, az, top, u}));
         }
+        // P: short DX/DY/DZ forms, every number of given layers
+        for (auto& d : bd) for (int az = 1; az < 4 && alive; ++az) for (int top = 0; top < 2 && alive; ++top) for (int L = 1; L <= d[2] && alive; ++L) for (int which = 0; which < 2 && alive; ++which)
+            for (int u = 0; u < 4 && alive; ++u) { if (!th && u != 0 && u != 1) continue; alive = go("P" + J({d[0], d[1], d[2], az, top, u, L, which})); }
         // C
         std::vector<std::array<int, 3>> cd;
         if (th) { for (int z = 1; z <= 3; ++z) for (int y = 1; y <= 3; ++y) for (int x = 1; x <= 3; ++x) cd.push_back({x, y, z}); }
